@@ -67,7 +67,7 @@ Section Sound.
     check_growth_exact g start row = true ->
     row = map (fun i => Z.of_nat (length (layer i))) (seq 0 (length row)) /\
     layer (length row) = [] /\
-    (forall i, i < length row -> layer i <> []).
+    (forall i, (i < length row)%nat -> layer i <> []).
   Proof.
     unfold check_growth_exact. intros H.
     destruct (growth_fuel (rb_funs g) [start] (S (length row))) as [sizes|] eqn:E; [|discriminate].
